@@ -83,6 +83,12 @@ def gen_case(rng, tier, index):
                           "pick": rng.getrandbits(16), "pos": rng.random()}
     return case
 
+def all_reloc(model):
+    """A non-relocatable package tags its Build-Id (and that of everything depending
+    on it) with its absolute path: such artifacts are legitimately not shared between
+    workspaces at different locations."""
+    return all(r.get("relocatable") is not False for r in model["recipes"].values())
+
 def _artifacts(arch):
     out = []
     for root, dirs, files in os.walk(arch):
@@ -185,7 +191,7 @@ def run_case(case):
                         break
                     if r.rc != 0:
                         continue
-                elif forced and not op.get("expect_all_downloaded"):
+                elif forced and not (op.get("expect_all_downloaded") and all_reloc(states[w])):
                     stats.inc("forced_download_failed_legitimately")
                     continue
                 else:
@@ -207,11 +213,11 @@ def run_case(case):
                 viol = {"kind": "downloaded-result-differs-from-local-build",
                         "detail": "op %d ws %s host %s mode %s (%d downloaded): %s" % (n, w, op["host"], op["mode"], ndl, diffs)}
                 break
-            if op.get("expect_all_downloaded") and damaged is None:
+            if op.get("expect_all_downloaded") and damaged is None and all_reloc(states[w]):
                 bad = [s for lab, s in ran if lab in ("build", "dist")]
                 # fingerprinted or non-relocatable packages are host/path specific: same host here,
                 # but a non-relocatable root legitimately cannot be shared between different paths
-                root_reloc = info["root"]["steps"]["dist"].get("relocatable", True)
+                root_reloc = True
                 if bad and root_reloc:
                     viol = {"kind": "identical-workspace-rebuilds-instead-of-downloading",
                             "detail": "state and host identical to the uploader, --download forced, yet %s executed" % bad}
